@@ -402,13 +402,7 @@ class ScipyOptimizeDriver(Driver):
                         con_dict['args'] = [name, False, j]
                         constraints.append(con_dict)
 
-                        if isinstance(upper, np.ndarray):
-                            upper = upper[j]
-
-                        if isinstance(lower, np.ndarray):
-                            lower = lower[j]
-
-                        dblcon = (upper < INF_BOUND) and (lower > -INF_BOUND)
+                        dblcon = (upper[j] < INF_BOUND) and (lower[j] > -INF_BOUND)
 
                         # Add extra constraint if double-sided
                         if dblcon:
